@@ -175,7 +175,9 @@ Theorem c15_sites_pinned :
   (repo_index_sites, repo_index_len_guards) = (["_[1]"; "_[2]"; "_[_:]"], ["len(_) != 3"; "len(_) == 0"; "len(_) == 0"])%string /\
   (parse_archs_sites, parse_archs_len_guards) = (["_[0]"; "_[0]"; "_[0]"], ["len(_) == 1"; "len(_) == 1"])%string /\
   (release_sites, release_len_guards, release_sets_scanner_buffer) = ([], [], false) /\
-  (expand_signed_cond, expand_sig_index_guarded, expand_max_streams, expand_sign_prefix) = ("sig >= 0", (3, 0)%nat, (2, 3)%nat, ".SIGN.")%string.
+  (expand_signed_cond, expand_sig_index_guarded, expand_max_streams, expand_sign_prefix) = ("sig >= 0", (3, 0)%nat, (2, 3)%nat, ".SIGN.")%string /\
+  (* fix 3bc1979: the arm for two streams refuses a package whose first stream is a signature *)
+  expand_switch_arm_guards = [(2, 3)%Z].
 Proof. repeat split. Qed.
 Print Assumptions c15_sites_pinned.
 
@@ -419,7 +421,7 @@ Example c15_unify_split_example : unify_split "busybox>=1.36@edge" = Ok ("busybo
 Proof. vm_compute. reflexivity. Qed.
 Example c15_expand_examples :
   expand_apk [MSign; MPlain; MPlain] false = Ok true /\ expand_apk [MPlain; MPlain] false = Ok false /\
-  expand_apk [MPlain] false = Err /\ expand_apk [] false = Err /\ expand_apk [MSign; MPlain] false = Ok false /\
+  expand_apk [MPlain] false = Err /\ expand_apk [] false = Err /\ expand_apk [MSign; MPlain] false = Err /\ expand_apk [MSign; MSign] false = Err /\
   expand_select 1 = Err /\ expand_select (-1) = Err /\ expand_select 4 = Err.
 Proof. vm_compute. repeat split. Qed.
 Example c15_sort_fix_example :
